@@ -230,8 +230,32 @@ def run_scenario(args):
             cand = [i for i, a in enumerate(acts) if env.current_state.host_discovered(a.target)]
             DR.v = 0.0
             env.step(rng.choice(cand) if cand and rng.random() < 0.9 else rng.randrange(len(acts)))
+        # a second episode on the same environment object in which nothing is discovered: the mask at step k of this
+        # episode is not the mask at step k of the previous one (anything remembered per step count or per
+        # environment would be stale here); the first query comes at the step count of the previous episode's last one
+        env.reset()
+        last_q = (12 if tier == "quick" else 60) - 1          # step count of the last query of the first episode
+        for step in range(last_q + 3):
+            if step >= last_q:
+                try:
+                    m = [int(x) for x in env.get_action_mask()]
+                except Exception as e:
+                    m = ["exception", type(e).__name__]
+                add("MASK " + " ".join(map(str, C.dyn_of(env, env.current_state))), m, "C11", "action mask (second episode)")
+                res["masks"] += 1
+            DR.v = 0.99
+            env.step(0)
         impl_roundtrips(sc, env, probs)
         res["gym_steps"] = gym_contract(sc, rng, probs, 10 if tier == "quick" else 40)
+        if kind == "random":
+            # a second environment in the same process whose scenario lists the same OS / service / process names in
+            # another order (its own layout is the one installed last): its decoders must reproduce *its* definition
+            sc2 = scen_gen.permute_names(sc)
+            env2 = NASimEnv(sc2, fully_obs=True, flat_actions=True, flat_obs=False)
+            p2 = []
+            impl_roundtrips(sc2, env2, p2)
+            probs += [(own, what + " (environment built after one whose scenario lists the same names in another order)")
+                      for own, what in p2]
         out = C.run_driver(lines + reqs)
         assert len(out) == len(reqs), (len(out), len(reqs))
         for req, exp, (owner, what), line in zip(reqs, expect, owners, out):
